@@ -13,6 +13,7 @@ MNone     == {"none"}
 \* length thresholds 15 / 150
 KLength   == {"w2", "w6", "w40", "c2"}
 H2None    == {"none"}
+H2Long    == {"none", "long"}     \* an h2 with other words: never a source of the title
 MNoneIe   == {"none", "ie"}
 \* separators: flat and hierarchical, hyphenated words, short first parts
 KSep      == {"w2", "w6", "hy", "dash", "bar", "raquo"}
